@@ -83,3 +83,32 @@ func TestAnalysisElementsHoldEachFragmentOnce(t *testing.T) {
 		}
 	}
 }
+
+// The page "a masthead over two notes" of R9.11.
+func TestAnalysisElementsMastheadPage(t *testing.T) {
+	frag := func(s string, x, y, w, size float64) text.TextFragment {
+		return text.TextFragment{Text: s, X: x, Y: y, Width: w, Height: size, FontSize: size, FontName: "F1"}
+	}
+	fr := []text.TextFragment{
+		frag("Vol.", 50, 700, 22, 10), frag("12", 76, 700, 12, 10),
+		frag("June", 420, 688, 26, 10), frag("2024", 450, 688, 24, 10),
+		frag("DAILY", 40, 664, 150, 48), frag("NEWS", 205, 664, 130, 48),
+		frag("Council", 40, 620, 40, 10), frag("approves", 84, 620, 46, 10), frag("budget", 134, 620, 36, 10),
+		frag("after", 40, 608, 26, 10), frag("long", 70, 608, 22, 10), frag("debate", 96, 608, 36, 10),
+	}
+	res := layout.NewAnalyzer().Analyze(fr, 612, 792)
+	joined := ""
+	for _, el := range res.Elements {
+		joined += el.Text + "\n"
+	}
+	for _, f := range fr {
+		if k := strings.Count(nonSpaceC09(joined), f.Text); k != 1 {
+			t.Errorf("fragment %q appears %d times in the analysis elements", f.Text, k)
+		}
+	}
+	if t.Failed() {
+		for i, el := range res.Elements {
+			t.Logf("element %d type %v: %q", i, el.Type, el.Text)
+		}
+	}
+}
